@@ -369,21 +369,25 @@ PreSet(sc) == {Grp(sc, g) : g \in {x \in {"pre", "cont"} : Has(sc, x)}}
 
 MPlanBypass ==
   /\ pc = "PlanBypass"
-  /\ IF Has(0, "bypass") THEN StartRuns({Grp(0, "bypass")}) /\ Goto("PlanBypass_j") ELSE UNCHANGED rn /\ Goto("PlanPre")
+  /\ IF Has(0, "bypass") /\ mem[Grp(0, "bypass")].st # FA THEN StartRuns({Grp(0, "bypass")}) /\ Goto("PlanBypass_j") ELSE UNCHANGED rn /\ Goto("PlanPre")
   /\ Silent /\ UNCH_MR /\ UNCH_M
 MPlanBypassJ ==
   /\ pc = "PlanBypass_j" /\ Joined({Grp(0, "bypass")})
   /\ ClearRuns({Grp(0, "bypass")})
   /\ IF RunOK(Grp(0, "bypass")) THEN Goto("End") /\ ch' = [ch EXCEPT ![0].closed = TRUE] ELSE Goto("PlanPre") /\ UNCHANGED ch
   /\ Silent /\ UNCHANGED <<mem, dur, mreason, dreason, cb, wk, lim, fails, li, am, cl, runs, waiter, wq>> /\ UNCH_M
+\* recovered plan: pre-checks that are already Completed are not asked again; the cont group still gets its initial run
+PlanPreSet == {g \in PreSet(0) : ~(g = Grp(0, "pre") /\ mem[g].st = CO)}
 MPlanPre ==
   /\ pc = "PlanPre"
-  /\ IF PreSet(0) = {} THEN UNCHANGED rn /\ Goto("PlanStartCont") ELSE StartRuns(PreSet(0)) /\ Goto("PlanPre_j")
+  /\ IF PlanPreSet = {} THEN UNCHANGED rn /\ Goto("PlanStartCont") ELSE StartRuns(PlanPreSet) /\ Goto("PlanPre_j")
   /\ Silent /\ UNCH_MR /\ UNCH_M
+PlanPreRunning == {g \in PreSet(0) : rn[g].st # "idle"}
 MPlanPreJ ==
-  /\ pc = "PlanPre_j" /\ Joined(PreSet(0))
-  /\ ClearRuns(PreSet(0))
-  /\ IF \A g \in PreSet(0) : RunOK(g) THEN Goto("PlanStartCont") ELSE Goto("PlanDeferred")
+  /\ pc = "PlanPre_j" /\ Joined(PlanPreRunning)
+  /\ ClearRuns(PlanPreRunning)
+  \* on failure blocks that are already in progress (recovered plan) end with the plan: "fix_def"
+  /\ IF \A g \in PlanPreRunning : RunOK(g) THEN Goto("PlanStartCont") ELSE Goto("fix_def")
   /\ Silent /\ UNCH_MR /\ UNCH_M
 MPlanStartCont ==
   /\ pc = "PlanStartCont"
@@ -632,14 +636,16 @@ FixSeqSt(m, b, q) ==
   IF nfa > 0 THEN FA ELSE IF nco = 0 THEN NS ELSE IF nco = NAct(b, q) THEN CO ELSE RU
 \* fixBlock part 1 (before it executes the sequences that are still Running)
 GroupFailedM(m, sc, g) == Has(sc, g) /\ m[Grp(sc, g)].st = FA
+FixSeqsOf(m, b) ==
+  [o \in DOMAIN m |->
+     IF \E q \in 1..NSeq(b) : o = SeqName(b, q) /\ m[o].st = RU THEN [m[o] EXCEPT !.st = FixSeqSt(m, b, obs.dd[o].s)]
+     ELSE IF \E q \in 1..NSeq(b) : o \in ActsQ(b, q) THEN FixAct(m[o])      \* every action, also inside a finished sequence
+     ELSE m[o]]
 FixBlock1(m, b) ==
-  IF m[ScopeName(b)].st # RU THEN m
+  IF m[ScopeName(b)].st # RU THEN FixSeqsOf(m, b)      \* a finished block: only its sequences are repaired (after a second crash)
   ELSE IF Has(b, "bypass") /\ m[Grp(b, "bypass")].st = CO THEN [m EXCEPT ![ScopeName(b)].st = CO]
   ELSE IF GroupFailedM(m, b, "pre") \/ GroupFailedM(m, b, "cont") \/ GroupFailedM(m, b, "post") THEN [m EXCEPT ![ScopeName(b)].st = FA]
-  ELSE [o \in DOMAIN m |->
-          IF \E q \in 1..NSeq(b) : o = SeqName(b, q) /\ m[o].st = RU THEN [m[o] EXCEPT !.st = FixSeqSt(m, b, obs.dd[o].s)]
-          ELSE IF \E q \in 1..NSeq(b) : o \in ActsQ(b, q) /\ m[SeqName(b, q)].st = RU THEN FixAct(m[o])
-          ELSE m[o]]
+  ELSE FixSeqsOf(m, b)
 RECURSIVE FixBlocks(_, _)
 FixBlocks(m, b) == IF b > NBk THEN m ELSE FixBlocks(FixBlock1(m, b), b + 1)
 \* a block that fixBlock will execute sequences for
@@ -666,11 +672,13 @@ ResetGroups(m, scopes) ==
      IF obs.dd[o].k = "chk" /\ obs.dd[o].b \in scopes /\ m[o].st = RU THEN R0
      ELSE IF obs.dd[o].k = "cact" /\ obs.dd[o].b \in scopes /\ m[Grp(obs.dd[o].b, obs.dd[o].g)].st = RU THEN R0
      ELSE m[o]]
+\* Recovery(): a plan found Failed still owes the deferred checks of its failed blocks and its own ("fix_def")
+AfterVerdict(st) == IF st = NS THEN "Start" ELSE IF st = CO THEN "End" ELSE IF st = FA THEN "fix_def" ELSE "PlanBypass"
 MFix ==
   /\ pc = "fix"
   /\ LET m0 == ResetGroups(mem, {0}) IN
      IF PlanVerdictEarly(m0) # RU
-       THEN mem' = [m0 EXCEPT !["p"].st = PlanVerdictEarly(m0)] /\ Goto("End") /\ UNCHANGED wk
+       THEN mem' = [m0 EXCEPT !["p"].st = PlanVerdictEarly(m0)] /\ Goto(AfterVerdict(PlanVerdictEarly(m0))) /\ UNCHANGED wk
        ELSE LET m1 == FixBlocks(ResetGroups(m0, 1..NBk), 1) IN
             /\ mem' = m1
             /\ wk' = [q \in DOMAIN wk |-> IF m1[q].st = RU /\ m1[ScopeName(obs.dd[q].b)].st = RU /\ mem[ScopeName(obs.dd[q].b)].st = RU
@@ -693,9 +701,27 @@ MFixWait ==
                 ELSE IF GroupFailedM(m2, 0, "cont") THEN FA ELSE RU IN
        /\ mem' = [m2 EXCEPT !["p"].st = pst]
        /\ wk' = [q \in DOMAIN wk |-> WK0]
-       /\ IF pst = NS THEN Goto("Start") ELSE IF pst \in {CO, FA} THEN Goto("End") ELSE Goto("PlanBypass")
+       /\ Goto(AfterVerdict(pst))
        /\ cb' = 1
   /\ Silent /\ UNCHANGED <<dur, mreason, dreason, lim, fails, li, am, rn, cl, ch, runs, waiter, wq>> /\ UNCH_M
+\* the deferred checks of failed blocks that have not run yet, in block order; then PlanDeferredChecks
+OwesDeferred(b) == mem[ScopeName(b)].st = FA /\ Has(b, "deferred") /\ mem[Grp(b, "deferred")].st \notin {CO, FA}
+\* a block still Running under a plan found Failed (the plan's cont checks had failed) fails with it
+MFixFailBlocks ==
+  /\ pc = "fix_def" /\ \E b \in 1..NBk : mem[ScopeName(b)].st = RU
+  /\ mem' = [o \in DOMAIN mem |-> IF obs.dd[o].k = "blk" /\ mem[o].st = RU THEN [mem[o] EXCEPT !.st = FA] ELSE mem[o]]
+  /\ Silent /\ UNCHANGED <<pc, dur, mreason, dreason, cb, wk, lim, fails, li, am, rn, cl, ch, runs, waiter, wq>> /\ UNCH_M
+MFixDef ==
+  /\ pc = "fix_def" /\ \A b \in 1..NBk : mem[ScopeName(b)].st # RU
+  /\ IF \E b \in 1..NBk : OwesDeferred(b)
+       THEN LET b == CHOOSE x \in 1..NBk : OwesDeferred(x) /\ \A y \in 1..NBk : OwesDeferred(y) => x <= y IN
+            StartRuns({Grp(b, "deferred")}) /\ Goto("fix_def_j") /\ cb' = b
+       ELSE UNCHANGED <<rn, cb>> /\ Goto("PlanDeferred")
+  /\ Silent /\ UNCHANGED <<mem, dur, mreason, dreason, wk, lim, fails, li, am, cl, ch, runs, waiter, wq>> /\ UNCH_M
+MFixDefJ ==
+  /\ pc = "fix_def_j" /\ Joined({Grp(cb, "deferred")})
+  /\ ClearRuns({Grp(cb, "deferred")}) /\ Goto("fix_def")
+  /\ Silent /\ UNCH_MR /\ UNCH_M
 
 (* ------------------------------------------------------------------ *)
 (* a polling reader (Workstream.Status / Plan): at any time it reads  *)
@@ -717,7 +743,7 @@ PollAgain(o) ==
   /\ UNCHANGED evars
 
 (* ------------------------------------------------------------------ *)
-Internal == MainStep \/ MFix \/ MFixWait
+Internal == MainStep \/ MFix \/ MFixWait \/ MFixFailBlocks \/ MFixDef \/ MFixDefJ
             \/ (\E q \in DOMAIN wk : WorkerStep(q))
             \/ (\E g \in DOMAIN rn : RunStep(g))
             \/ (\E sc \in DOMAIN cl : ContStep(sc))
